@@ -29,7 +29,10 @@ def impl_array(a, dt, trap, dtype=float):
     of the same numbers) must not be modified, and a second call on the same array object must return the same series"""
     import eqsig
     from eqsig.displacements import calc_velo_and_disp_from_accel_arr
-    a = np.array(a, dtype=float).astype(dtype)
+    if dtype in (list, tuple):       # plain Python containers are accepted at array level
+        a = dtype(float(x) for x in a)
+    else:
+        a = np.array(a, dtype=float).astype(dtype)
     a0 = np.array(a, dtype=float)
     r = core.guarded_pure(calc_velo_and_disp_from_accel_arr, a, dt, trap=trap)
     if isinstance(r, ImplError):
@@ -92,9 +95,13 @@ def gen(rng, tier):
             site, trap = 'AccSignal.velocity/displacement/pga/pgv/pgd' + ('' if dty is float else '[int record]'), True
         else:
             trap = (k % 3 == 0)
-            dty = [float, float, np.int64, np.float32][(k // 3) % 4]
+            dty = [float, float, np.int64, np.float32, list, tuple][(k // 3) % 6]
+            if dty in (list, tuple) and not trap:
+                dty = float          # the rectangle-rule branch multiplies the container by dt: arrays only
+            if dty is float and (k // 18) % 3 == 0:
+                a = a * 2.0 ** -rng.choice([30, 34, 40])     # very weak records (|a| < 1e-8): the laws hold at every amplitude
             r = guarded(impl_array, a, dt, trap, dty)
-            site = 'calc_velo_and_disp_from_accel_arr' + ('' if dty is float else '[%s record]' % np.dtype(dty).name)
+            site = 'calc_velo_and_disp_from_accel_arr' + ('' if dty is float else '[%s record]' % (dty.__name__ if dty in (list, tuple) else np.dtype(dty).name))
         # float32 storage: numpy integrates in single precision (relative rounding 6e-8 per operation, accumulated over the
         # record), which is rounding, not a defect: compared at 1e-3 of the series peak instead of exactly
         out.append((site, trap, dt, a, r, 1e-3 if 'float32' in site else 0))
